@@ -75,22 +75,22 @@ def main():
     finally:
         sh('git -C /repo worktree remove --force %s' % wt)
         shutil.rmtree(wt, ignore_errors=True)
-    # run the checks against /repo with the change applied
-    rc, o = sh('git -C /repo diff --quiet')
-    if rc:
-        print('/repo has uncommitted changes; refusing')
-        return 2
+    # run the checks against a scratch copy of /repo with the change applied (DROOP_REPO points the analyser at it;
+    # equivalent to `git -C /repo apply` + checks + `git -C /repo checkout -- .`, without touching /repo while
+    # background runs are reading it)
     caught = {}
+    wt2 = tempfile.mkdtemp(prefix='seedwt-')
+    os.rmdir(wt2)
+    rc, o = sh('git -C /repo worktree add -q --detach %s HEAD' % wt2)
     try:
-        rc, o = sh('git -C /repo apply %s' % os.path.abspath(diff))
+        rc, o = sh('git apply %s' % os.path.abspath(diff), cwd=wt2)
         if rc:
-            print('does not apply to /repo', o)
+            print('does not apply', o)
             return 2
-        rc, o = sh('VERIF_NOWRITE=1 ./check all', cwd=VERIF, timeout=600)
+        rc, o = sh('DROOP_REPO=%s VERIF_NOWRITE=1 ./check all' % wt2, cwd=VERIF, timeout=600)
         cur = None
         for line in o.splitlines():
             if '] ' in line and ' [R' in line:
-                # file:line func [Rnn] what -- how
                 rule = line.split(' [R', 1)[1].split(']', 1)[0]
                 cur = ('R' + rule, line[:260])
             elif line.startswith('VIOLATION property='):
@@ -102,9 +102,10 @@ def main():
             elif line.startswith('ANALYSIS-ERROR'):
                 p = line.split('property=')[1].split()[0] if 'property=' in line else '?'
                 caught.setdefault(p, []).append(('ANALYSIS-ERROR', line[:260]))
-        ran.append('./check all with the change applied to /repo -> exit %d' % rc)
+        ran.append('./check all with the change applied (scratch worktree via DROOP_REPO) -> exit %d' % rc)
     finally:
-        sh('git -C /repo checkout -- .')
+        sh('git -C /repo worktree remove --force %s' % wt2)
+        shutil.rmtree(wt2, ignore_errors=True)
     meta['caught_by'] = {p: [dict(rule=r, report=t) for r, t in v] for p, v in caught.items()}
     meta['caught_by_own_property'] = pid in caught and any(r != 'ANALYSIS-ERROR' for r, _ in caught[pid])
     meta['what_ran'] = ran
